@@ -743,6 +743,16 @@ private:
       // today's rotation time has passed, use the same time of the day tomorrow. Adding 24 hours
       // is wrong on the days daylight saving time starts or ends (23 or 25 hours long)
       date.tm_mday += 1;
+
+      if (config.rotation_frequency() == RotatingFileSinkConfig::RotationFrequency::Daily)
+      {
+        // mktime has normalised the fields: a time of the day that does not exist today (skipped
+        // when daylight saving time started) was moved, and tomorrow must not inherit that
+        date.tm_hour = static_cast<decltype(date.tm_hour)>(config.daily_rotation_time().first.count());
+        date.tm_min = static_cast<decltype(date.tm_min)>(config.daily_rotation_time().second.count());
+        date.tm_sec = 0;
+      }
+
       date.tm_isdst = -1;
       rotation_time =
         (config.timezone() == Timezone::GmtTime) ? detail::timegm(&date) : std::mktime(&date);
